@@ -388,6 +388,41 @@ func (c *Ctx) Eq(a, b *Term) *Term {
 			return c.Not(c.Eq(c.BV(1, 1), a))
 		}
 	}
+	// xor cancellation: (x^y = x^z) <=> (y = z) ; (x^y = x) <=> (y = 0)
+	if a.Op == OBVXor || b.Op == OBVXor {
+		if a.Op != OBVXor {
+			a, b = b, a
+		}
+		if b.Op == OBVXor {
+			for i := 0; i < 2; i++ {
+				for j := 0; j < 2; j++ {
+					if a.Args[i] == b.Args[j] {
+						return c.Eq(a.Args[1-i], b.Args[1-j])
+					}
+				}
+			}
+		} else {
+			for i := 0; i < 2; i++ {
+				if a.Args[i] == b {
+					return c.Eq(a.Args[1-i], c.BV(a.Sort.W, 0))
+				}
+			}
+		}
+		if a.IsConst() || (b.IsConst() && a.Op == OBVXor && !a.Args[0].IsConst() && !a.Args[1].IsConst()) {
+			// keep constant first for the rules below
+		}
+		if b.IsConst() && !a.IsConst() {
+			a, b = b, a
+		}
+	}
+	// eq(k, or(c, y)) with a constant c that has a one where k has a zero: never equal
+	if a.IsConst() && b.Op == OBVOr {
+		for _, x := range b.Args {
+			if x.IsConst() && new(big.Int).AndNot(x.Val, a.Val).Sign() != 0 {
+				return c.False
+			}
+		}
+	}
 	// eq(ite(c,k1,k2),k) with constants
 	if b.IsConst() && a.Op == OIte {
 		a, b = b, a
